@@ -8,7 +8,7 @@ s=s.replace('''Everything below was sized with throw-away probes against the rea
 "probe:" are measured in this sandbox, single core, z3 5.1.0).  No framework code exists yet.''','''Sections 0-8 are the design round (sized with throw-away probes against the real modules; numbers quoted
 as "probe:" are measured in this sandbox, single core, z3 5.1.0).  **Sections 9-12 describe what was
 actually built** - bounds as implemented, sub-claims dropped, false alarms corrected, the genuine
-defects the checks produced (25 repaired by `fix:` commits, the rest recorded as known findings) and
+defects the checks produced (NFIX repaired by `fix:` commits, the rest recorded as known findings) and
 which checks catch which seeded changes.  Where section 4 and section 9 differ, section 9 is what the code does.''')
 s=s.replace('''`not_applicable` in MANIFEST.json: **C08, C16**.  All other properties are claimed with the bounds
 above;''','''`not_applicable` in MANIFEST.json: **C08, C16**.  All other 18 properties are claimed and have a working check (bounds as built: section 9);''')
@@ -61,13 +61,13 @@ out.append('''
 | C10 | 27 | edge matrices (4 families), scale factors | bounds / extents / centroid / area / volume / triangles / dump / to_mesh, copy, scaled (uniform, per axis), rezero, apply_transform, +, subscene, chain with identity edge | 95 s |
 | C11 | 46 | triangle coordinates, plane offset | section / slice_plane sub-spaces (axis planes, catalogue oblique planes), on-vertex / on-edge sign patterns as paths | 12 s |
 | C12 | 29 | ray origin / query point (triangle catalogue) and vice versa | ray-triangle hits = exhaustive definition; closest point; nearby_faces candidates superset | 32 s |
-| C13 | 43 | run counts (any magnitude), dense values, indices | rle/brle codecs, splits at dtype maximum, encodings interchangeable; 5 known findings (mask / stripped / all-empty) | 12 s |
+| C13 | 55 | run counts (any magnitude), dense values, indices | rle/brle codecs, splits at dtype maximum, encodings interchangeable under 7 views (flips, swaps, cyclic transpose, flat, reshape); 5 known findings (mask / stripped / all-empty) | 20 s |
 | C14 | 2 | rectangle size / offset (Real); cut positions, directions, list order (forked) | traversal rebuilds every loop (area, perimeter, vertex set exact); shapely values per configuration on catalogue coordinates under 9 similarity transforms | 103 s |
 | C15 | 19 | radii, heights, extents, offsets (Real); section count (forked 3..6) | box / cylinder / cone / annulus: topology, signed volume > 0 and = inscribed formula, bounds, box area + inertia, under none / translation / rotation / mirror placements; sphere-like shapes on catalogue grids; primitive edits | 77 s |
 | C17 | 12 | payload coordinate, written value (Real); read-state, copy route, side, edit site (forked) | other object unchanged after an edit at any of the enumerated sites, for Trimesh (3 variants), Box / Sphere / Cylinder, Path2D, PointCloud, Scene, VoxelGrid, ColorVisuals | 97 s |
 | C18 | 12 | apex coordinates, cube size, edge bound (Real); flipped / removed / subdivided subsets (forked) | fix_normals (1 and 2 bodies, all subsets), fill_holes (triangle, quad), subdivide (all / subsets / twice), subdivide_to_size (all bounds in [2.2, 9]), subdivide_loop topology | 96 s |
 | C19 | 119 | quaternion, unit-circle angles, TRS factors | 24 Euler conventions x branches, quaternion / matrix / axis-angle conversions, rotation_from_matrix with eig stub | 90 s |
-| C20 | 2 | file length, every header word | STL binary and GLB chunk loop: allocation <= 64 L + 4096, loop progress, exit kinds | 4 s |
+| C20 | 2 | file length, every header word (STL) / every byte of the file (GLB) | STL binary and GLB chunk loop: allocation <= 64 L + 4096, loop progress, no chunk-header position read twice (lasso), exit kinds, unwinding assertion | 9 s |
 
 `vp check` on the whole set: about 18 minutes.  Thorough tiers widen counts / ranges as written in each unit's `bounds`
 string; every thorough command was run end-to-end once (wall times in `evidence/` of that run; those which exceeded
@@ -149,7 +149,7 @@ Observed by sub-agents while reading, outside the registered obligations and lef
 `tol.merge`; `Path2D(**dict_to_path(path.export("dict")))` raises for Line entities (dict round trip: not claimed).
 
 ## 12. Seeded changes: which checks catch which
-33 changes written by independent sub-agents (each saw only the property text and a scratch worktree of `/repo`), kept
+NSEED changes (all but `C20-h1` written by independent sub-agents, each of which saw only the property text and a scratch worktree of `/repo`), kept
 under `/verif/seeded/<id>/` (patch.diff, demo.py, notes.txt, meta.json).  Every one compiles, passes the relevant existing
 tests and flips its demo.  `tools/try_seeded.sh seeded/<id>` re-checks all three facts.  "missed at first" = the check had
 to be strengthened; the strengthening is general (a new unit or edit site), not a special case for the patch.
@@ -163,5 +163,8 @@ out.append('''
 Still missed in the quick tier: **C01-m1** (caught by the thorough tier only).  Everything else is caught by the quick
 command of its property.  The reverse patches of the %d fixes (`/verif/regress/`) are caught by the quick tier as well.
 ''' % len(regress))
+import re as _re
+s=_re.sub(r'\((NFIX|\d+) repaired by', '(%d repaired by' % len(fixed), s)
+out=[x.replace('NSEED', str(len(glob.glob('/verif/seeded/*/meta.json')))) for x in out]
 open(p,'w').write(s.rstrip("\n")+"\n"+"\n".join(out)+"\n")
 print(len(open(p).read().splitlines()))
